@@ -81,12 +81,23 @@ fn build_pieces(xot: &mut Xot, a: &ANode, src: &mut Src, pieces_used: &mut usize
         ANode::Element(e) => {
             let id = crate::bridge::name_id(xot, &e.name);
             let el = xot.new_element(id);
-            for (p, u) in &e.decls {
+            // every declaration and attribute is set twice: first, in order, with a provisional value, then
+            // (last to first) with the final one — setting an existing key replaces the value and nothing else
+            let provisional = xot.add_namespace("urn:provisional");
+            for (p, _) in &e.decls {
+                let p = xot.add_prefix(p);
+                xot.namespaces_mut(el).insert(p, provisional);
+            }
+            for (p, u) in e.decls.iter().rev() {
                 let p = xot.add_prefix(p);
                 let u = xot.add_namespace(u);
                 xot.namespaces_mut(el).insert(p, u);
             }
-            for (q, v) in &e.attrs {
+            for (q, _) in &e.attrs {
+                let id = crate::bridge::name_id(xot, q);
+                xot.set_attribute(el, id, "provisional");
+            }
+            for (q, v) in e.attrs.iter().rev() {
                 let id = crate::bridge::name_id(xot, q);
                 xot.set_attribute(el, id, v.clone());
             }
